@@ -328,3 +328,115 @@ def dyadic_models(ctx, Q, timeout_s=6.0):
             s.add(v * (2 ** k) == z3.ToReal(m)); s.add(m >= -(2 ** (k + 8))); s.add(m <= 2 ** (k + 8))
         if s.check() == z3.sat:
             yield extract_inputs(ctx, s.model())
+
+
+def _zabs(t):
+    return z3.If(t >= 0, t, -t)
+
+
+def robust_neg(Q, delta=1e-5):
+    """a strengthened negation of the claim Q: every (in)equality must be violated by a relative margin, so that the
+    witness survives floating-point replay.  Implies Not(Q); falls back to Not(x) on sub-terms it does not understand."""
+    d = core.rv(delta)
+    k = Q.decl().kind() if z3.is_app(Q) else None
+    ch = Q.children() if z3.is_app(Q) else []
+    if k == z3.Z3_OP_AND:
+        return z3.Or(*[robust_neg(c, delta) for c in ch])
+    if k == z3.Z3_OP_OR:
+        return z3.And(*[robust_neg(c, delta) for c in ch])
+    if k == z3.Z3_OP_IMPLIES:
+        return z3.And(ch[0], robust_neg(ch[1], delta))
+    if k == z3.Z3_OP_NOT:
+        return ch[0]
+    if k in (z3.Z3_OP_EQ, z3.Z3_OP_LE, z3.Z3_OP_LT, z3.Z3_OP_GE, z3.Z3_OP_GT) and len(ch) == 2 and z3.is_real(ch[0]):
+        a, b = ch
+        m = d * (1 + _zabs(a) + _zabs(b))
+        if k == z3.Z3_OP_EQ:
+            return z3.Or(a - b > m, b - a > m)
+        if k in (z3.Z3_OP_LE, z3.Z3_OP_LT):
+            return a - b > m
+        return b - a > m
+    if k == z3.Z3_OP_ITE and z3.is_bool(Q):
+        return z3.If(ch[0], robust_neg(ch[1], delta), robust_neg(ch[2], delta))
+    return z3.Not(Q)
+
+
+def robust_models(ctx, Q, timeout_s=20.0):
+    """counterexample candidates that violate Q by a margin (tried after exact and dyadic witnesses failed to replay)"""
+    hyps = list(ctx.pre) + ctx.path_cond()
+    for delta in (1e-4, 1e-6):
+        for kind in ("smt", "nra"):
+            s = _mk_solver(kind, timeout_s * 500)
+            for h in hyps: s.add(h)
+            for d in ctx.defs:
+                for c in d.cons: s.add(c)
+            s.add(robust_neg(Q, delta))
+            if s.check() == z3.sat:
+                yield extract_inputs(ctx, s.model())
+                break
+
+
+def fork_call(fn, timeout_s):
+    """run fn() in a forked child with a hard wall-clock limit (z3's own time-outs are not always honoured by nlsat);
+    returns fn's picklable result or None"""
+    import os, pickle, select, signal
+    r, w = os.pipe()
+    pid = os.fork()
+    if pid == 0:
+        try:
+            os.close(r)
+            try:
+                data = pickle.dumps(fn())
+            except BaseException:
+                data = pickle.dumps(None)
+            with os.fdopen(w, "wb") as f:
+                f.write(data)
+        finally:
+            os._exit(0)
+    os.close(w)
+    out = b""
+    end = time.time() + timeout_s
+    try:
+        while True:
+            left = end - time.time()
+            if left <= 0:
+                os.kill(pid, signal.SIGKILL)
+                out = None
+                break
+            ready, _, _ = select.select([r], [], [], left)
+            if not ready:
+                continue
+            chunk = os.read(r, 1 << 16)
+            if not chunk:
+                break
+            out += chunk
+    finally:
+        os.close(r)
+        try:
+            os.waitpid(pid, 0)
+        except ChildProcessError:
+            pass
+    if not out:
+        return None
+    try:
+        return pickle.loads(out)
+    except Exception:
+        return None
+
+
+def retry_models(ctx, Q, timeout_s=40.0):
+    """dyadic and margin witnesses, computed in a guarded child process"""
+    def work():
+        res = []
+        t_end = time.time() + timeout_s - 2
+        for m in dyadic_models(ctx, Q, timeout_s=4.0):
+            res.append(m)
+            if time.time() > t_end:
+                return res
+        if Q is not None:
+            for m in robust_models(ctx, Q, timeout_s=8.0):
+                res.append(m)
+                if time.time() > t_end:
+                    break
+        return res
+    return fork_call(work, timeout_s) or []
